@@ -49,7 +49,9 @@ def gen_body(rng, ci, j, keys, big_n, depth, target):
             body.append(blk)
             continue
         if r < 0.25 and depth == 0:
-            body.append({'op': 'sleep', 'dt': rng.choice((0.001, 0.1, 1.0, 100.0))})
+            # hold times are drawn relative to the waiters' lock timeout: every timed-out BEGIN of a retrying waiter costs
+            # scheduler steps (10 ms timeout for FanoutCache), so long holds would hit the step cap without testing more
+            body.append({'op': 'sleep', 'dt': rng.choice((0.001, 0.05, 0.5) if target == 'fanout' else (0.001, 0.1, 1.0, 20.0))})
             continue
         op = gen_plain(rng, ci, j * 10 + b, keys, big_n, target, in_block=True)
         body.append(op)
@@ -133,7 +135,7 @@ def gen_case(seed, tier):
            'line_p': rng.choice((0.0, 0.0, 0.05)) if topo == 'shared' else 0.0,
            'dircollide': rng.random() < 0.5, 'post_stmt_yield': rng.random() < 0.3, 'yield_clock': rng.random() < 0.5,
            'clock': {'mode': 'frozen'}, 'timeout': rng.choice((60, 60, 0.05)) if target != 'fanout' else 0.010,
-           'shards': rng.choice((2, 3)), 'kind': 'conc', 'step_cap': 60000}
+           'shards': rng.choice((2, 3)), 'kind': 'conc', 'step_cap': 200000}
     return {'seed': seed, 'cfg': cfg, 'progs': progs, 'faults': []}
 
 
